@@ -149,6 +149,7 @@ structure LoopInv (tips : List String) (cur : T) (inner : List (List String × R
     (s.tip = false ∧ ∃ p ∈ inner, SameSide tips s.below p.1 ∧ s.e.len = p.2.1 ∧ s.e.sup = p.2.2)
   j2 : ∀ p ∈ inner, ∃ s ∈ cur.splits, s.tip = false ∧ SameSide tips s.below p.1 ∧ s.e.len = p.2.1 ∧ s.e.sup = p.2.2
   j3 : ∀ av ∈ tipv, ∀ s ∈ cur.splits, s.below = [av.1] → s.tip = true → s.e.len = av.2
+  cnt : ni cur.splits ≤ inner.length
 
 theorem tipNames_eq_leaves (t : T) (h : 2 ≤ t.kids.length) : t.tipNames = leavesL t.kids := by
   unfold T.tipNames
@@ -218,7 +219,7 @@ theorem step_inner (tips : List String) (hT : tips.Nodup) (cur : T) (inner : Lis
   obtain ⟨cur', hok, snew, hsnew, hnew⟩ := insertSplit_adds S len sup cur hnd hdeg hSnd hS2 hsub hout hclades
   have hfil : S.filter cur.tipNames.contains = S := by
     rw [List.filter_eq_self]; intro a ha; simpa using hsub a ha
-  obtain ⟨hkeeps, holdnew, hperm, hdeg'⟩ := insertSplit_spec S len sup cur cur' hnd hdeg hSnd hok
+  obtain ⟨hkeeps, holdnew, hperm, hdeg', hni⟩ := insertSplit_spec S len sup cur cur' hnd hdeg hSnd hok
   rw [hfil, hlen] at holdnew
   rw [hlen] at hnew
   have hnd' : (leavesL cur'.kids).Nodup := hperm.nodup_iff.2 inv.nd
@@ -232,7 +233,8 @@ theorem step_inner (tips : List String) (hT : tips.Nodup) (cur : T) (inner : Lis
     refine ⟨hn.2.1, sameSide_of_isNew hT hSnd hST rfl (hbelow' s hs).2 (hbelow' s hs).1 hn, ?_, ?_⟩
     · rw [hn.1]; rfl
     · rw [hn.1]; rfl
-  refine ⟨cur', hok, ⟨hdeg' inv.deg, hnd', hperm', ?_, ?_, ?_⟩⟩
+  refine ⟨cur', hok, ⟨hdeg' inv.deg, hnd', hperm', ?_, ?_, ?_, by
+    have := inv.cnt; simp only [List.length_append, List.length_cons, List.length_nil]; omega⟩⟩
   · intro s' hs'
     rcases holdnew s' hs' with ⟨s, hs, hsame⟩ | hn
     · rcases inv.j1 s hs with ⟨a, ha⟩ | ⟨htip, p, hp, hss, hl, hsu⟩
@@ -292,7 +294,17 @@ theorem step_tip (tips : List String) (cur : T) (inner : List (List String × Ra
   cases cur with
   | node d p k =>
     have hk : (setTipLen a v (.node d p k)).kids = setTipLenL a v k := rfl
-    refine ⟨?_, ?_, ?_, ?_, ?_, ?_⟩
+    refine ⟨?_, ?_, ?_, ?_, ?_, ?_, ?_⟩
+    rotate_left 6
+    · rw [hsp]
+      have : ni ((T.node d p k).splits.map (setLenEntry a v)) = ni (T.node d p k).splits := by
+        unfold ni
+        rw [List.filter_map, List.length_map]
+        congr 1
+        apply List.filter_congr
+        intro s _
+        simp [Function.comp, setLenEntry_tip]
+      rw [this]; exact inv.cnt
     · rw [hk, setTipLenL_length]; exact inv.deg
     · rw [hk, setTipLenL_leaves]; exact inv.nd
     · rw [hk, setTipLenL_leaves]; exact inv.perm
